@@ -52,7 +52,7 @@ def handleBpe (ws : List String) : String :=
           if aS.toList.any (fun c => !(vDom vc (String.singleton c))) then "err:vocab" else
           let pieces := if pS.isEmpty then [""] else (pS.splitOn ",").map tok
           let outs := pieces.map (fun p =>
-            if p.isEmpty then some [] else encodePiece vc m eow.isSome p)
+            if p.isEmpty then some [] else encodePiece vc m eow p)
           if outs.any Option.isNone then "skip" else
           "ids=" ++ joinWith ";" (outs.map (fun o => showNats "," (o.getD [])))
   | _, _, _, _, _ => "bad-request"
